@@ -132,7 +132,7 @@ def r3(ctx, prog):
             pt = own.pointee(c['ct'])
             if pt and pt in managed:
                 org = own.capture_origin(f, c['d'])
-                if org not in ('cabinet-free', 'swap-out'):
+                if org not in own.OWNED:
                     bad.append('%s (%s*, origin %s)' % (c['n'], pt.split('::')[-1], org))
         ctx.ob('C13.R3', '%s|deferred-capture' % locks.site_name(prog, f), not bad,
                'captures tokens/values only' if not bad else
